@@ -212,7 +212,7 @@ def bounded(tier, seed, R):
               '(never a value while the failure persists, never a bare internal exception); (2) every cell that does not depend '
               'on it evaluates to its from-scratch value; (3) after set_value(failing cell, constant) every cell evaluates as in '
               'a fresh model with that constant; also with an evaluation of unrelated cells before the failure')
-    wbs = W.grammar(rnd, 8 if not thorough else 24) + W.cse_grammar(rnd, 4 if not thorough else 8)
+    wbs = W.grammar(rnd, 8 if not thorough else 24) + W.cse_grammar(rnd, 4 if not thorough else 8) + W.random_dags(rnd, 3 if not thorough else 20)
     # formulas that handle an operand error themselves (queued on the shared error-message list), before / around the failure
     wbs += [W.WB({'A1': 0, 'A2': 5}, {'B1': '=IFERROR(1/A1,7)', 'C1': '=A2*2', 'D1': '=IFERROR(1/A1,7)+C1', 'E1': '=D1+B1',
                                      'F1': '=A2+B1'}, 'captured'),
